@@ -773,3 +773,33 @@ def run(idx, rep, tier):
     r6(k)
     r7(k)
     r8(k)
+    # C16.R9: the algorithm name of a signature blob is compared as read;
+    # principals / namespaces are matched case-sensitively (shared witnesses)
+    from .c17 import wildcard_witnesses
+    rep.rule('C16.R9', 'SSHKey.verify compares the algorithm name read from '
+             'the signature blob - unmodified, the packet read being its '
+             'only definition - with the key\'s accepted set and hands the '
+             'same value to verify_ssh; allowed-signers principals and '
+             'namespaces= patterns match the whole value case-sensitively '
+             '(wildcard witnesses of C17.R5)')
+    _vf = k.func('public_key.SSHKey.verify')
+    _g = k.cfg(_vf)
+    _rd = k.rd(_vf)
+    _reads = [n.id for n in _g.nodes for nm, v in _rd.defs[n.id]
+              if nm == 'sig_algorithm' and v is not None and
+              is_call(v, 'get_string', 'packet')]
+    _uses = [n for n in _g.nodes if n.ast is not None and n.id not in _reads
+             and 'sig_algorithm' in names_read(n.ast) and
+             not any(nm == 'sig_algorithm' for nm, _ in _rd.defs[n.id])]
+    rep.floor('C16.R9', 'uses of the blob algorithm name', len(_uses), 2)
+    for _n in _uses:
+        _ds = _rd.defs_of(_n.id, 'sig_algorithm')
+        rep.check(bool(_reads) and _ds <= set(_reads), 'C16.R9',
+                  key(_vf, f'algorithm name as read L{_n.lineno}'),
+                  'only the packet read defines it',
+                  'the algorithm name taken from the signature blob is '
+                  'rewritten before it is compared / used (e.g. a prefix '
+                  'stripped): a blob relabelled "x509v3-<alg>" verifies '
+                  'under a plain key, so the name is no longer bound',
+                  k.loc(_vf, _n))
+    wildcard_witnesses(k, 'C16.R9')
